@@ -159,6 +159,7 @@ package interpreter
 // ---- dispatch: every operator node reaches the operator function of its own name, operands in source order ----
 //@ func (*Interpreter).EvaluateExpression
 //@   trusted
+//@   assertat "switch e := expr.(type) {" depth <= maxEvalDepth
 
 //@ func (*Interpreter).evaluateUnaryOp
 //@   strict
